@@ -131,6 +131,10 @@ func cmdCheck(args []string) int {
 		return 2
 	}
 	var patterns []string
+	for _, m := range []string{"node", "order", "model", "market", "did", "sao"} {
+		pkgSet[repoMod+"/x/"+m+"/keeper"] = true
+		pkgSet[repoMod+"/x/"+m] = true
+	}
 	for p := range pkgSet {
 		patterns = append(patterns, p)
 	}
